@@ -238,6 +238,8 @@ class PathEnum:
                 d = self.variant_discr(x[1], x[2])
                 if d is not None:
                     return ("const", d)
+            if x[0] == "call" and x[1] == "std::ops::FromResidual::from_residual" and x[2] and x[2][0][0] == "residual":
+                return ("const", 1)     # the Err a `?` propagated (Option residuals are folded to None where they arise)
             return ("discr", x)
         if k == "aggregate":
             ops = tuple(self.operand(env, o) for o in rv["ops"])
